@@ -367,6 +367,10 @@ func runCase(c *Case) (seen map[string][]Ev, problem string) {
 			if op.B == "nil" {
 				payload = nil // the untyped nil is a message value like any other
 			}
+			if op.B == "dead" {
+				// so is a DeadLetterEvent: an actor may relay one it received to somebody who is gone
+				payload = actor.DeadLetterEvent{Target: never, Message: testMsg{op.ID}}
+			}
 			done := make(chan struct{})
 			go func() {
 				defer close(done)
